@@ -105,6 +105,15 @@ var corpus = []string{
 	`select ?s, ?r from ?a where {?s "p"@[] ?o . optional {?o "q"@[] ?r}};`,
 	`select ?s, ?r from ?a where {?s "p"@[] ?o . optional {/u<zz> "q"@[] ?r}};`,
 	`select ?s from ?a where {?s "p"@[] ?o . /u<a> "p"@[] /u<b>};`,
+	// OPTIONAL whose bindings nothing binds (disjoint from the rest, no match / a match), then used
+	// by ORDER BY, by an alias + ORDER BY, by GROUP BY + aggregates and by HAVING: NULL cells must be usable
+	`select ?s, ?w from ?a where {?s "p"@[] ?o . optional {?x "zz"@[] ?w}} order by ?w;`,
+	`select ?s, ?w as ?ww from ?a where {?s "p"@[] ?o . optional {?x "zz"@[] ?w}} order by ?ww desc, ?s;`,
+	`select ?s, sum(?w) as ?t from ?a where {?s "p"@[] ?o . optional {?x "zz"@[] ?w}} group by ?s;`,
+	`select ?s, count(?w) as ?n from ?a where {?s "p"@[] ?o . optional {?x "zz"@[] ?w}} group by ?s order by ?n;`,
+	`select ?s, ?w from ?a where {?s "p"@[] ?o . optional {?x "zz"@[] ?w}} having ?w > "1"^^type:int64;`,
+	`select ?s, ?r from ?a where {?s "p"@[] ?o . optional {?o "q"@[] ?r}} order by ?r, ?s;`,
+	`select ?s, ?r, ?w from ?a where {?s "p"@[] ?o . optional {?o "q"@[] ?r} . optional {?x "zz"@[] ?w}} order by ?w, ?r;`,
 	`select ?n, ?s, ?q, ?o from ?a where {?n "_subject"@[] ?s . ?n "_predicate"@[] ?q . ?n "_object"@[] ?o};`,
 	// group by / aggregates
 	`select ?s, count(?o) as ?n from ?a where {?s "p"@[] ?o} group by ?s;`,
